@@ -4,9 +4,12 @@ package main
 //  - jsonPoolScenario: after an invalid-JSON read somewhere, overlapping wsjson.Read calls on other
 //    connections must each decode their own message (the pooled bytes.Buffer must not be shared);
 //  - staleWriterScenario: a client connection is closed while one of its frame writes is stuck in a
-//    transport that is slow to return; connections created afterwards must not see its bytes.
+//    transport that is slow to return; connections created afterwards must not see its bytes;
+//  - windowPoolScenario: see below.
 
 import (
+	"bytes"
+	"compress/flate"
 	"context"
 	"fmt"
 	"io"
@@ -187,6 +190,84 @@ func staleWriterScenario(rounds int) (string, string) {
 		}
 		if bad != "" {
 			return "stale-writer-reaches-other-connection", bad
+		}
+	}
+	return "", ""
+}
+
+// windowPoolScenario: connections with context takeover read a tagged compressed message and are
+// closed; a connection created afterwards receives a compressed message whose back-references point
+// before the start of its own stream (a peer that deflates with a preset dictionary). Nothing that
+// was sent on this connection determines those bytes, so the read must fail; in particular it must
+// never hand out bytes of the earlier connections (their sliding windows go back to a pool).
+func windowPoolScenario(rounds int) (string, string) {
+	for r := 0; r < rounds; r++ {
+		for _, client := range []bool{false, true} {
+			for _, viaReader := range []bool{false, true} {
+				for i := 0; i < 4; i++ {
+					a, b := newPipe()
+					c := websocket.VerifNewConn(a, client, websocket.VerifCopts{Enabled: true}, 0)
+					peer := newRawPeer(b, !client)
+					secret := []byte(fmt.Sprintf("conn/victim-%d-%d|", r, i))
+					for len(secret) < 160 {
+						secret = append(secret, byte('A'+len(secret)%26))
+					}
+					d := newRawDeflater(true, 6)
+					peer.writeFrame(RawFrame{Fin: true, Rsv1: true, Op: 2, Payload: d.message(secret, false)})
+					ctx, cancel := context.WithTimeout(context.Background(), 3*time.Second)
+					_, got, err := c.Read(ctx)
+					cancel()
+					if err != nil || !bytes.Equal(got, secret) {
+						c.CloseNow()
+						b.Close()
+						return "window-scenario-setup", fmt.Sprintf("victim %d: read %d bytes, %v", i, len(got), err)
+					}
+					if i%2 == 0 {
+						c.CloseNow()
+					} else {
+						peer.writeFrame(RawFrame{Fin: true, Op: 8, Payload: []byte{0x03, 0xe8}})
+						rctx, rc := context.WithTimeout(context.Background(), time.Second)
+						c.Read(rctx)
+						rc()
+						c.CloseNow()
+					}
+					b.Close()
+				}
+				// the probe: 160 arbitrary bytes deflated against themselves as preset dictionary, so the stream
+				// is essentially "copy 160 bytes from distance 160" at position 0
+				guess := bytes.Repeat([]byte{'?'}, 160)
+				var buf bytes.Buffer
+				fw, _ := flate.NewWriterDict(&buf, 9, guess)
+				fw.Write(guess)
+				fw.Flush()
+				payload := bytes.TrimSuffix(buf.Bytes(), []byte{0, 0, 0xff, 0xff})
+				a, b := newPipe()
+				c := websocket.VerifNewConn(a, client, websocket.VerifCopts{Enabled: true}, 0)
+				peer := newRawPeer(b, !client)
+				peer.writeFrame(RawFrame{Fin: true, Rsv1: true, Op: 2, Payload: payload})
+				ctx, cancel := context.WithTimeout(context.Background(), 3*time.Second)
+				var got []byte
+				var err error
+				if viaReader {
+					var rd io.Reader
+					_, rd, err = c.Reader(ctx)
+					if err == nil {
+						got, err = io.ReadAll(rd)
+					}
+				} else {
+					_, got, err = c.Read(ctx)
+				}
+				cancel()
+				c.CloseNow()
+				b.Close()
+				desc := fmt.Sprintf("client=%v reader=%v round=%d", client, viaReader, r)
+				if bytes.Contains(got, []byte("conn/victim")) {
+					return "foreign-bytes-returned", fmt.Sprintf("%s: a new connection's read returned %q — bytes received earlier on another, closed connection (stale sliding window used as dictionary)", desc, trunc(string(got), 60))
+				}
+				if err == nil {
+					return "bytes-not-sent-on-connection", fmt.Sprintf("%s: a message whose back-references point before the start of the stream was read successfully (%d bytes %q)", desc, len(got), trunc(string(got), 40))
+				}
+			}
 		}
 	}
 	return "", ""
